@@ -25,7 +25,8 @@ struct Case {
   int64_t stop_after = 0;      // stop is called this long after start
   int pre = 0;                 // 0 nothing, 1 wait(INFINITE) before stop (reaped state; needs a child that exits), 2 wait(0) before stop
   int64_t epoch = 1000000;
-  int fail_wait = -1;          // the poll of this executed step's wait is interrupted (EINTR)
+  int fail_wait = -1;          // the wait of this executed step is interrupted (EINTR) ...
+  int64_t fail_offset = 0;     // ... by the first poll the library enters this long after the wait began
 };
 
 int gen_timeout(Tape &t, const Case &c)
@@ -102,7 +103,10 @@ Case decode(Tape &t, long sweep)
   if (c.pre == 1 && c.self_exit_after == model::T_INF) c.pre = 2;
   static const int64_t epochs[] = { 1000000, 1, 1700000000000LL, 2147483000LL, 2199023255000LL, 4102444800000LL };
   c.epoch = epochs[t.pick(6)];
-  if (t.chance(1, 8)) c.fail_wait = (int) t.pick(3);
+  if (t.chance(1, 8)) {
+    c.fail_wait = (int) t.pick(3);
+    if (t.chance(1, 3)) c.fail_offset = (int64_t) t.range(1, 3000);
+  }
   return c;
 }
 
@@ -149,6 +153,7 @@ CaseResult run_case(Tape &t, long sweep)
                      .kv("pre", c.pre)
                      .kv("epoch", (long long) c.epoch)
                      .kv("wait_interrupted_at_step", c.fail_wait)
+                     .kv("interrupt_offset", (long long) c.fail_offset)
                      .str();
   if (!err.empty() || ch.start_result <= 0) {
     w.uninstall();
@@ -195,21 +200,39 @@ CaseResult run_case(Tape &t, long sweep)
   int reaps0 = vs_reaps(ch.pid);
 
   reproc_stop_actions sa = { { (REPROC_STOP) c.act[0].action, c.act[0].timeout }, { (REPROC_STOP) c.act[1].action, c.act[1].timeout }, { (REPROC_STOP) c.act[2].action, c.act[2].timeout } };
-  if (c.fail_wait >= 0 && !reaped) vs_fail_nth(VS_POLL, c.fail_wait);
-  uint32_t polls_before_stop = vs_counts.calls[VS_POLL];
+  // The interruption is placed in virtual time, not by counting the library's
+  // calls: the first poll entered at or after the chosen moment fails with
+  // EINTR, and the moment it was delivered at tells which wait it hit.
+  if (c.fail_wait >= 0 && !reaped) {
+    model::StopExpect at = model::interpret_stop(c.act, cs, t0, deadline_abs, reaped, cached, true, c.fail_wait, EINTR);
+    if (at.kind == model::StopExpect::WAIT_ERROR) w.intr_poll_at = at.end + c.fail_offset;
+  }
+  // every finite bound of this request, so that an unbounded wait made of
+  // bounded polls is still recognised as one
+  {
+    int64_t bound = 10000;
+    for (int i = 0; i < 3; i++)
+      if (c.act[i].timeout > 0) bound += c.act[i].timeout;
+    if (c.deadline) bound += c.deadline;
+    if (c.term_mode == 2) bound += c.term_delay;
+    w.call_begins(bound);
+  }
   int r = reproc_stop(ch.p, sa);
-  vs_fail_nth(-1, -1);
-  // was the interrupted wait reached at all?
-  int fail_wait = (c.fail_wait >= 0 && !reaped && vs_counts.calls[VS_POLL] - polls_before_stop > (uint32_t) c.fail_wait) ? c.fail_wait : -1;
+  w.intr_poll_at = -1;
+  int64_t intr_at = w.intr_fired_at;
   int64_t t1 = w.now;
 
-  // ---- compare with the interpreter (both tie resolutions) ---------------
+  // ---- compare with the interpreter (both tie resolutions; every wait an
+  // observed interruption can have belonged to) ------------------------------
   std::string first_problem, first_sig;
-  bool matched = false;
+  bool matched = false, any_candidate = false;
   model::StopExpect shown;
-  for (int variant = 0; variant < 2 && !matched; variant++) {
-    model::StopExpect e = model::interpret_stop(c.act, cs, t0, deadline_abs, reaped, cached, variant == 0, fail_wait, EINTR);
-    if (variant == 0) shown = e;
+  for (int cand = 0; cand < (intr_at >= 0 ? 6 : 2) && !matched; cand++) {
+    int variant = cand % 2;
+    model::StopExpect e = model::interpret_stop(c.act, cs, t0, deadline_abs, reaped, cached, variant == 0, intr_at >= 0 ? cand / 2 : -1, EINTR, intr_at);
+    if (intr_at >= 0 && e.kind != model::StopExpect::WAIT_ERROR) continue;  // the interruption cannot have hit this wait
+    if (!any_candidate) shown = e;
+    any_candidate = true;
     std::string problem, sig;
     auto bad = [&](const std::string &s, const std::string &m) {
       if (problem.empty()) {
@@ -221,7 +244,7 @@ CaseResult run_case(Tape &t, long sweep)
     std::vector<vt::SigEvent> got(w.signals.begin() + (long) sig0, w.signals.end());
     if (e.kind == model::StopExpect::HANG) {
       if (!w.hang) bad("returned-instead-of-waiting", "the contract makes this stop wait without bound (child never ends), but it returned " + std::to_string(r) + " at +" + std::to_string(t1 - t0) + " ms");
-      else if (w.hang_at != e.end) bad("wrong-duration", "unbounded wait began at +" + std::to_string(w.hang_at - t0) + " ms, expected +" + std::to_string(e.end - t0));
+      else if (w.hang_by_horizon ? w.hang_at < e.end : w.hang_at != e.end) bad("wrong-duration", "unbounded wait began at +" + std::to_string(w.hang_at - t0) + " ms, expected +" + std::to_string(e.end - t0));
     } else {
       if (w.hang) bad("blocked-forever", "stop blocked without bound (" + w.hang_what + " at +" + std::to_string(w.hang_at - t0) + " ms) although the contract bounds it: " + e.trace);
     }
@@ -269,12 +292,13 @@ CaseResult run_case(Tape &t, long sweep)
     }
     if (reaped && vs_reaps(ch.pid) != reaps0) bad("cached-status-not-immediate", "stop on an already reaped child reaped again");
     if (problem.empty()) matched = true;
-    else if (variant == 0) {
+    else if (first_problem.empty()) {
       first_problem = problem;
       first_sig = sig;
     }
   }
-  if (!matched) res.fail(first_sig, first_problem);
+  if (!any_candidate) res.fail("waited-outside-any-wait", "the library entered a poll at +" + std::to_string(intr_at - t0) + " ms, when no step of this request is waiting");
+  else if (!matched) res.fail(first_sig, first_problem);
 
   // ---- classification -------------------------------------------------------
   int non_noop = 0;
